@@ -78,7 +78,9 @@ def select(cases, rng, n, must):
     """keep all cases satisfying `must`, plus a random sample of the rest"""
     a = [c for c in cases if must(c["cfg"])]
     b = [c for c in cases if not must(c["cfg"])]
+    rng.shuffle(a)
     rng.shuffle(b)
+    a = a[:max(1, n // 3)]
     return a + b[:max(0, n - len(a))]
 
 
